@@ -274,7 +274,7 @@ pub fn run(tier: Tier, seed: u64) -> i32 {
         rule: "Random programs (core and wide fragment, unique rule names, rule references in both directions, shared file-level variables) x documents; 1-3 operations per case out of {permute the lines of one CNF (rule body, when condition, block, filter, type block), permute the alternatives of one line, duplicate a line, duplicate an alternative, permute the rules of the file, duplicate a rule under a fresh name}; all permutations when the permuted sequence has <=4 items, 8 sampled ones otherwise. Every variant is evaluated by the tool and must give every rule of the original (by name) the same status, the same file status, and a copy the status of its original. Cases in which any ordering raises an evaluation error are discarded (the statement's precondition) and counted. Non-trivial: the program has a rule reference or a rule that is not SKIP; distinct by hash of (document, program, first operation).".into(),
         assumptions: vec!["rule names are unique within a file (the status of a name defined twice with different verdicts depends on definition order by design)".into()],
     };
-    execute("C04", tier, seed, spec, &replay, &|run: &crate::engine::Run| {
+    execute("C04", tier, seed, spec, &replay, &|run: &Session| {
         let sz = tier.pick(Size::quick(), Size::thorough());
         run.run_random("permutations", tier.pick(25_000, 600_000), tier.pick(1200, 2400), |u| random_case(u, sz));
         let st = run.stats.lock().unwrap();
